@@ -42,6 +42,7 @@ type RunOpts struct {
 	NoFinal   bool // skip the end-of-case comparison (engines that do their own)
 	KeepData  bool // log the payload of every write (C03)
 	NoLog     bool // do not keep the file call log (long scans)
+	RevertPoints bool // every successful Flush must append a root record (it is a FlushRevert point): C02, C07, C08, C09, C14
 	RealFile  bool // mirror every file call on a real os.File and compare (harness self-check)
 	// InitImage/InitDurable start the case on an existing file image whose
 	// durable states are known (C03: a crash image and what must be recoverable).
@@ -840,6 +841,11 @@ func (w *World) exec(op *Op) (done bool) {
 			key := []byte(fmt.Sprintf("bk%05d", (i*7919+op.Flag)%100003))
 			val := bytes.Repeat([]byte{byte('a' + i%26)}, int(x>>8)%9)
 			prio := int32(x>>1) & 0x7fffffff
+			if op.At == 1 {
+				// chain mode: tied priorities, keys in ascending order (a degenerate, list-shaped treap)
+				key = []byte(fmt.Sprintf("bk%05d", i))
+				prio = 7
+			}
 			it := w.newItem(key, val, prio)
 			err := c.SetItem(it)
 			w.dropAppRef(h, c, it)
@@ -920,16 +926,18 @@ func (w *World) execFlush() bool {
 		return true
 	}
 	pre := h.st.VerifSize()
+	changed := !w.liveEqualsDurable()
 	ok := w.call("Flush", true, func() error { return h.st.Flush() })
 	if !ok {
 		w.junkEnd = int64(len(w.file.B))
 		return false
 	}
-	changed := !w.liveEqualsDurable()
 	// The root record ends at the store's append position; the file itself may be
 	// longer when leftovers of a failed flush lie beyond it.
 	end := h.st.VerifSize()
-	if end <= pre || end > int64(len(w.file.B)) {
+	if end < pre || end > int64(len(w.file.B)) || (end == pre && (w.opt.RevertPoints || changed)) {
+		// (a Flush that appends nothing is tolerated only where no property makes every
+		// Flush a revert point and only if nothing changed since the last one)
 		w.failf("flush-no-root", "Flush returned nil but the append position went %d -> %d (file has %d bytes)", pre, end, len(w.file.B))
 	}
 	w.durable = append(w.durable, Durable{ms: h.m.Clone(), fileLen: end})
